@@ -12,7 +12,7 @@ use std::collections::{BTreeMap, BTreeSet, HashMap};
 use std::sync::Arc;
 use vharness::locustdb::verif::ingest::buffer::Buffer;
 use vharness::locustdb::verif::ingest::input_column::InputColumn;
-use vharness::locustdb::verif::mem_store::{CodecOp, Column, DataSource};
+use vharness::locustdb::verif::mem_store::{CodecOp, Column, DataSection, DataSource};
 use vharness::locustdb::{LocustDB, Options};
 use vharness::locustdb_serialization::api::AnyVal;
 use vharness::locustdb_serialization::event_buffer::{ColumnBuffer as WireColumn, ColumnData, EventBuffer, TableBuffer};
@@ -93,6 +93,27 @@ fn column_data(r: &ColRep) -> ColumnData {
 
 fn enc_name(t: &dyn std::fmt::Debug) -> String { format!("{:?}", t).to_lowercase() }
 
+fn fnv(vals: impl Iterator<Item = u64>) -> (usize, u64) {
+    let mut h = 0xcbf29ce484222325u64;
+    let mut n = 0;
+    for v in vals { h = (h ^ v).wrapping_mul(0x100000001b3); n += 1; }
+    (n, h)
+}
+
+fn section_sum(d: &DataSection) -> (usize, u64) {
+    match d {
+        DataSection::U8(v) => fnv(v.iter().map(|x| *x as u64)),
+        DataSection::U16(v) => fnv(v.iter().map(|x| *x as u64)),
+        DataSection::U32(v) => fnv(v.iter().map(|x| *x as u64)),
+        DataSection::U64(v) => fnv(v.iter().cloned()),
+        DataSection::I64(v) => fnv(v.iter().map(|x| *x as u64)),
+        DataSection::F64(v) => fnv(v.iter().map(|x| x.0.to_bits())),
+        DataSection::Null(n) => (*n, fnv(std::iter::empty()).1),
+        DataSection::Bitvec(v) => fnv(v.iter().map(|x| *x as u64)),
+        DataSection::LZ4 { data, .. } | DataSection::Pco { data, .. } => fnv(data.iter().map(|x| *x as u64)),
+    }
+}
+
 fn shape_of(col: &Column) -> String {
     let ops: Vec<String> = col.codec().ops().iter().map(|op| match op {
         CodecOp::Nullable => "Nullable".to_string(),
@@ -106,7 +127,8 @@ fn shape_of(col: &Column) -> String {
         CodecOp::UnhexpackStrings(u, n) => format!("StrHexUnpack({},{})", u, n),
         CodecOp::Unknown => "Unknown".to_string(),
     }).collect();
-    let secs: Vec<String> = col.data().iter().map(|d| enc_name(&d.encoding_type())).collect();
+    // section type + element count + FNV-1a-style checksum of the (decompressed) contents
+    let secs: Vec<String> = col.data().iter().map(|d| { let (n, h) = section_sum(d); format!("{}#{}.{:016x}", enc_name(&d.encoding_type()), n, h) }).collect();
     format!("n{}:{}:{}", col.len(), if ops.is_empty() { "id".to_string() } else { ops.join("+") }, secs.join(","))
 }
 
@@ -115,7 +137,7 @@ fn shape_class(shape: &str) -> String {
     let mut parts = shape.splitn(3, ':');
     let _n = parts.next();
     let ops = parts.next().unwrap_or("");
-    let secs = parts.next().unwrap_or("");
+    let secs: String = parts.next().unwrap_or("").split(',').map(|t| t.split('#').next().unwrap_or(t)).collect::<Vec<_>>().join(",");
     let ops: String = ops.split('+').map(|o| { let name = o.split('(').next().unwrap_or(o);
         if o.starts_with("Add") { format!("Add({})", o[4..].split(',').next().unwrap_or("")) } else if o.starts_with("StrHexUnpack") { format!("StrHexUnpack({})", o[13..].split(',').next().unwrap_or("")) } else if o.contains('(') { o.to_string() } else { name.to_string() } }).collect::<Vec<_>>().join("+");
     format!("{}:{}", ops, secs)
@@ -445,6 +467,16 @@ fn main() {
         cases.push(&format!("unit/corpus/{}", ucls.join("|")), &model_line("u", &case), &u, &name);
         let (out, path, detail) = run_api(&case, 1);
         cases.push(&format!("api/corpus/{}/{}", path, out.split(':').next().unwrap_or("")), &model_line("q", &case), &out, &format!("{} {}", name, detail));
+    }
+    // 1b. dictionary index width u16 / u32 (65535 / 65536 distinct values; dictionary needs distinct < len/2): too large for
+    //     the quadratic executable Lean model of the dictionary builder => real code vs specification only (`s`), shape as coverage (`x`)
+    for k in [65535usize, 65536] {
+        let strs: Vec<String> = (0..(2 * k + 2)).map(|i| format!("k{:05}", (i * 7) % k)).collect();
+        let case = Case { ncols: 1, items: vec![Item::Batch { len: strs.len() as u64, reps: vec![Some(ColRep::Str(strs))] }], tags: vec![] };
+        let (u, ucls) = run_unit(&case);
+        cases.push(&format!("unit/big/{}", ucls.join("|")), "c01 x", &u, &format!("dict-card-{}", k));
+        let (out, path, detail) = run_api(&case, 1);
+        cases.push(&format!("api/big/{}/{}", path, out.split(':').next().unwrap_or("")), &model_line("s", &case), &out, &format!("dict-card-{} {}", k, detail));
     }
     // 2. random unit-level cases
     let n_unit = if thorough { 6000 } else { 700 };
